@@ -1002,7 +1002,7 @@ theorem findsWith_spec {ex : Interp} {v : Pe.View} {qs : List Nat} {nx : MSt →
   simp only [hr1, bind_ok']
   cases hf1 : r1.found with
   | false =>
-    refine ⟨false, r1.save, by simp, fun h => by cases h, fun _ => ⟨fun h => by cases h, ?_⟩⟩
+    refine ⟨false, r1.save, by simp, (fun h => by cases h), fun _ => ⟨(fun h => by cases h), ?_⟩⟩
     rintro ⟨c, hc⟩
     have hcc := (hc c).2 rfl
     have := hdead c (hs1.notfound hf1 c (by rw [hm]; exact hcc.1))
@@ -1059,5 +1059,26 @@ theorem findsWith_spec {ex : Interp} {v : Pe.View} {qs : List Nat} {nx : MSt →
           have hsp2' : IsScanPos v m.start hi r2.pos := IsScanPos_weaken hsp2 (by omega)
           have h2c : r2.pos = c := (hc r2.pos).1 ⟨hG _ hsp2' (hacc _ _ b5), hacc _ _ b5⟩
           omega
+
+/-! ### the executable reference -/
+
+theorem mem_candidates (v : Pe.View) (m lo hi p : Nat) : p ∈ candidates v m lo hi ↔ IsCand v m lo hi p := by
+  unfold candidates IsCand
+  split
+  · simp only [List.mem_filter, List.mem_range'_1, decide_eq_true_eq]
+    omega
+  · simp only [List.mem_flatMap, List.mem_filter, List.mem_range'_1, decide_eq_true_eq]
+    constructor
+    · rintro ⟨s, hs, _, hc⟩; exact ⟨s, hs, hc⟩
+    · rintro ⟨s, hs, hc⟩
+      refine ⟨s, hs, ?_, hc⟩
+      obtain ⟨c1, c2, c3, c4, c5, c6, c7⟩ := hc
+      omega
+
+/-- the reference list holds exactly the candidate positions at which the pattern executes -/
+theorem mem_specMatches (v : Pe.View) (pat : List Atom) (lo hi p : Nat) :
+    p ∈ specMatches v pat lo hi ↔ IsCand v (setup pat).length lo hi p ∧ execOK v pat p = true := by
+  unfold specMatches
+  rw [List.mem_filter, mem_candidates]
 
 end Pelite.Scan
